@@ -319,6 +319,47 @@ pub fn run(cfg: &RunCfg, rep: &mut Report) {
                 Err(m) => compile_panicked(rep, i, name, &m, &pstr),
             }
         }
+        // real keys in mixed serialisations: a context that forbids a key kind (uncompressed in
+        // segwit v0) must refuse or avoid it; what it returns must re-parse in that context
+        if i % 4 == 1 {
+            struct Mixed<'w>(&'w World);
+            impl PolNames for Mixed<'_> {
+                fn key(&self, i: usize) -> String {
+                    let k = &self.0.keys[i % self.0.keys.len()];
+                    if i % 2 == 1 {
+                        k.uncompressed_hex.clone()
+                    } else {
+                        k.compressed_hex.clone()
+                    }
+                }
+                fn hash32(&self, i: usize, kind: u8) -> String { self.0.hash32(i, kind) }
+                fn hash20(&self, i: usize, kind: u8) -> String { self.0.hash20(i, kind) }
+            }
+            let preal = p.concrete(&Mixed(&world));
+            if let Ok(Ok(creal)) = guarded(|| Concrete::<bitcoin::PublicKey>::from_str(&preal)) {
+                macro_rules! real_target {
+                    ($ctx:ty, $name:expr) => {{
+                        let c2 = creal.clone();
+                        rep.eval();
+                        match guarded(move || c2.compile::<$ctx>()) {
+                            Ok(Ok(ms)) => {
+                                let text = ms.to_string();
+                                match guarded(|| Miniscript::<bitcoin::PublicKey, $ctx>::from_str(&text).map(|_| ()).map_err(|e| e.to_string())) {
+                                    Ok(Ok(())) => rep.count(concat!("real-keys-compiled-and-reparsed:", $name)),
+                                    Ok(Err(e)) => rep.violation(i, format!("C08:output-does-not-reparse:real-keys:{}", $name), format!("policy {} compiled ({}) to {} which the context's own parser rejects: {}", preal, $name, text, e)),
+                                    Err(m) => rep.violation(i, format!("C08:panic:reparse:{}", norm_loc(&last_panic_loc())), format!("{} on {}", m, text)),
+                                }
+                            }
+                            Ok(Err(_)) => rep.count(concat!("real-keys-refused:", $name)),
+                            Err(m) => compile_panicked(rep, i, $name, &m, &preal),
+                        }
+                    }};
+                }
+                real_target!(Segwitv0, "compile<Segwitv0>");
+                real_target!(Legacy, "compile<Legacy>");
+                real_target!(BareCtx, "compile<Bare>");
+            }
+        }
         // ground truth in the VM on a sample: real keys, wsh and tr
         if i % 3 == 0 {
             vm_sample(rep, i, &world, &p, &mut rng, cfg.tier);
